@@ -15,6 +15,9 @@ open Gold Gold.Peg
 def mk (kind ident : String) (rng : Range) (kids : List Tree) (attrs : List String := []) (sel : Option Range := none) : Tree :=
   .node kind ident rng (sel.getD rng) attrs kids
 
+/-- a range as an attr payload `l:c-l:c` (attrs are not part of the parse dump; the scope model reads them) -/
+def encRng (r : Range) : String := s!"{r.s.line}:{r.s.col}-{r.e.line}:{r.e.col}"
+
 /-- `AstTerminal::new(token)`; attrs: `tok=<TokenType>` of the token (read by the lint model) -/
 def terminal (t : Tree) : Tree := mk "terminal" t.ident t.rng [] ["tok=" ++ t.kind]
 
@@ -135,8 +138,11 @@ def untilStop (ks : List Kind) (self : Nat) : G :=
       (.ifTok ks (.eps Tree.none)
         (.map loopCons (.seq (.recover .skipTok (.ref nStatement)) (.ref self)))))
 
-/-- `AstBinaryOp`; attrs: `op=<TokenType>` of the operator token -/
-def binNode (l op r : Tree) : Tree := mk "bin_op" op.ident (Range.span l.rng r.rng) [l, r] ["op=" ++ op.kind]
+/-- `AstBinaryOp`; attrs: `dot` first for member access, `oprng=` range of the operator token (scope model),
+    `op=<TokenType>` of the operator token (lint model) -/
+def binNode (l op r : Tree) : Tree :=
+  mk "bin_op" op.ident (Range.span l.rng r.rng) [l, r]
+    ((if op.kind == "Dot" then ["dot"] else []) ++ ["oprng=" ++ encRng op.rng, "op=" ++ op.kind])
 
 /-- right operand of a dangling `.`: `AstEmpty` -/
 def danglingRight (op c : Tree) : Tree :=
@@ -198,7 +204,7 @@ def gClass : G :=
       let c := v.nth 1; let n := v.nth 2; let p := v.nth 3
       let e := if p.isNone then n.rng else (p.nth 2).rng
       mk "class" n.ident (Range.span c.rng e) []
-        (if p.isNone then [] else ["parent=" ++ (p.nth 1).ident]) (some n.rng))
+        (if p.isNone then [] else ["parent=" ++ (p.nth 1).ident, "prng=" ++ encRng (p.nth 1).rng]) (some n.rng))
     (seqL [optAnn, .tok Kind.Class, .tok Kind.Identifier, .opt gParentClass])
 
 def gModule : G :=
@@ -226,7 +232,8 @@ def lastD (l : List Tree) (d : Tree) : Tree := l.getLast?.getD d
 def gUses : G :=
   .map (fun v =>
       let u := v.nth 0; let ids := (v.nth 1).kids
-      mk "uses" "uses" ⟨u.rng.s, (lastD ids u).rng.e⟩ [] (ids.map (fun i => "uses=" ++ i.ident)))
+      mk "uses" "uses" ⟨u.rng.s, (lastD ids u).rng.e⟩ []
+        (ids.map (fun i => "uses=" ++ i.ident) ++ ids.map (fun i => "urng=" ++ encRng i.rng)))
     (seqL [.tok Kind.Uses, .ref nIdentList])
 
 def gTypeDecl : G :=
@@ -255,7 +262,7 @@ def gRefOptions : G := seqL [.tok Kind.OSqrBracket, .ref nIdentList, .tok Kind.C
 def gTypeReference : G :=
   .map (fun v =>
       let r := v.nth 0; let id := v.nth 2; let inv := (v.nth 3).nth 1
-      mk "type_ref" id.ident (Range.span r.rng (if inv.isNone then id.rng else inv.rng)) [])
+      mk "type_ref" id.ident (Range.span r.rng (if inv.isNone then id.rng else inv.rng)) [] ["ref=" ++ r.kind, "idrng=" ++ encRng id.rng])
     (seqL [toks [Kind.RefTo, Kind.ListOf], .recover .silentAt gRefOptions, .tok Kind.Identifier,
            .dep (.opt (.tok Kind.Inverse)) Tree.isSome (.tok Kind.Identifier)])
 
